@@ -5,7 +5,11 @@ Real code: furax.projections.create_projection_operator, furax.instruments.sat.c
 landscapes of nside 1, 2, 4, the four Stokes kinds, 1-3 detectors with 1-3 directions each, 1-6 samples,
 integer sky maps holding distinct primes.  Everything runs in worker subprocesses
 (`python c16.py --worker`) with JAX_ENABLE_X64=1 (a few float32 cases with x64 disabled, and float32 landscapes with x64
-enabled: single-precision maps, double-precision pointing).  Position angles of both signs and beyond one turn, detectors off the
+enabled: single-precision maps, double-precision pointing).  Coincidence layouts (Check.COINCIDENCES): every way in which the axes (detectors, directions
+per detector, samples) of the time-ordered data coincide in size or have size 1 (square 3x3, 4x4, (3,2,3), (2,2,3), (2,3,3), (2,2,2), (1,n),
+(n,1), ...), for every Stokes kind, with position angles, boresights and detector offsets free of any symmetry: there a shape-based guess of
+the role of an axis (one angle per DETECTOR instead of per sample, a transposed table) is ambiguous and silently changes the result, while every
+rectangular layout behaves.  Position angles of both signs and beyond one turn, detectors off the
 boresight axis (one on the axis in half of the cases), detector plane at z = 0.5, 1, 2.
 
 Model: coq/theories/Model/Acquisition.v (run_acq: exact rationals) fed with the IMPLEMENTATION's own pixel
@@ -808,8 +812,101 @@ class Check(PropertyCheck):
         # float32 landscape with x64 enabled (single-precision maps, double-precision pointing)
         for stokes in ('IQU', 'I') if quick else STOKES:
             cases.append(self.one_case(rng, 4 if stokes == 'IQU' else 2, stokes, 2, 2 if stokes == 'I' else 1, 5, 'generic', dtype='float32'))
+        cases += self.coincidence_cases(rng, quick)
         self._cases = cases
         return cases
+
+    # Layouts (detectors, directions per detector, samples) in which axes of the time-ordered data coincide in size or have size 1:
+    # any shape-based guess of the role of an axis (angles aligned with the detector axis, a squeezed axis, a transposed table)
+    # is ambiguous exactly there.  ndir = 1: 2-d data (ndet, nsamp); ndir > 1: 3-d data (ndet, ndir, nsamp).  Two sizes per class.
+    COINCIDENCES = {
+        '2d:ndet=nsamp': [(3, 1, 3), (4, 1, 4), (2, 1, 2), (6, 1, 6)],
+        '2d:ndet=1': [(1, 1, 3), (1, 1, 4)],
+        '2d:nsamp=1': [(3, 1, 1), (2, 1, 1)],
+        '2d:ndet=nsamp=1': [(1, 1, 1)],
+        '3d:ndet=nsamp': [(3, 2, 3), (2, 3, 2)],
+        '3d:ndet=ndir': [(2, 2, 3), (3, 3, 2)],
+        '3d:ndir=nsamp': [(2, 3, 3), (3, 2, 2)],
+        '3d:ndet=ndir=nsamp': [(2, 2, 2), (3, 3, 3)],
+        '3d:ndet=1': [(1, 2, 3), (1, 3, 2)],
+        '3d:nsamp=1': [(2, 3, 1), (3, 2, 1)],
+        '3d:ndet=1,ndir=nsamp': [(1, 2, 2), (1, 3, 3)],
+        '3d:nsamp=1,ndet=ndir': [(2, 2, 1), (3, 3, 1)],
+        '3d:ndet=nsamp=1': [(1, 2, 1), (1, 3, 1)],
+    }
+
+    def asymmetric(self, case, rng):
+        """Replaces the pointing and the detector offsets of a case by ones without any symmetry: position angles whose doubled
+        angles are pairwise far apart (and far from multiples of pi/2, so that Q and U really mix), of both signs and beyond one
+        turn; boresights in pairwise distinct pixels where the map has enough of them; detector offsets pairwise distinct.
+        Exchanging the roles of two axes (sample <-> detector <-> direction) then changes the expected result."""
+        import healpy as hp
+
+        pi = math.pi
+        nsamp = len(case['pa'])
+        gap = min(0.35, 0.9 * pi / (2 * nsamp))
+
+        def far(a, b):  # distance of the doubled angles on the circle
+            d = abs((2 * a - 2 * b) % (2 * pi))
+            return min(d, 2 * pi - d)
+
+        pa = []
+        while len(pa) < nsamp:
+            a = rng.uniform(-2 * pi, 2 * pi)
+            if all(far(a, b) >= gap for b in pa) and all(far(a, k * pi / 4) >= 0.1 for k in range(4)):
+                pa.append(a)
+        theta, phi, seen = [], [], set()
+        while len(theta) < nsamp:
+            t, p = math.acos(rng.uniform(-0.95, 0.95)), rng.uniform(0, 2 * pi)
+            pix = int(hp.ang2pix(case['nside'], t, p))
+            if pix not in seen or len(seen) >= 12 * case['nside'] ** 2 // 2:
+                seen.add(pix)
+                theta.append(t)
+                phi.append(p)
+        ndet, ndir = len(case['det_x']), len(case['det_x'][0])
+        offsets = set()
+        while len(offsets) < ndet * ndir:
+            offsets.add((round(rng.uniform(-0.5, 0.5), 3), round(rng.uniform(-0.5, 0.5), 3)))
+        offsets = sorted(offsets)
+        rng.shuffle(offsets)
+        case['det_x'] = [[offsets[d * ndir + m][0] for m in range(ndir)] for d in range(ndet)]
+        case['det_y'] = [[offsets[d * ndir + m][1] for m in range(ndir)] for d in range(ndet)]
+        case.update(theta=theta, phi=phi, pa=pa, style='coincidence')
+        return case
+
+    def coincidence_cases(self, rng, quick):
+        """Every coincidence class x every Stokes kind (sizes, nside cycling), + frequency maps whose leading axis coincides too,
+        + single-precision variants; pointing and detector offsets without symmetry."""
+        out = []
+        k = 0
+        for name, layouts in self.COINCIDENCES.items():
+            for si, stokes in enumerate(STOKES):
+                for j in range(1 if quick else len(layouts)):
+                    ndet, ndir, nsamp = layouts[(si + j) % len(layouts)]
+                    nside = (2, 1, 4)[k % 3] if quick else (1, 2, 4)[k % 3]
+                    k += 1
+                    c = self.one_case(rng, nside, stokes, ndet, ndir, nsamp, 'generic', layout=name)
+                    out.append(self.asymmetric(c, rng))
+        variants = [
+            ((3, 1, 3), 'IQU', dict(land='frequency', nfreq=3)),
+            ((2, 2, 2), 'QU', dict(land='frequency', nfreq=2)),
+            ((4, 1, 4), 'IQU', dict(x64=False, dtype='float32')),
+            ((3, 2, 3), 'QU', dict(dtype='float32')),
+        ]
+        if not quick:
+            variants += [
+                ((3, 3, 3), 'IQUV', dict(land='frequency', nfreq=3)),
+                ((2, 1, 2), 'IQUV', dict(land='frequency', nfreq=2)),
+                ((3, 3, 3), 'IQUV', dict(x64=False, dtype='float32')),
+                ((2, 3, 2), 'QU', dict(x64=False, dtype='float32')),
+                ((6, 1, 6), 'IQUV', dict(dtype='float32')),
+                ((2, 2, 3), 'IQU', dict(dtype='float32')),
+            ]
+        for (ndet, ndir, nsamp), stokes, kw in variants:
+            nside = 1 if kw.get('land') == 'frequency' else 2
+            c = self.one_case(rng, nside, stokes, ndet, ndir, nsamp, 'generic', layout='variant', **kw)
+            out.append(self.asymmetric(c, rng))
+        return out
 
     def search_cases(self):
         other = type(self)('thorough', self.seed + 1)
@@ -821,7 +918,12 @@ class Check(PropertyCheck):
             '1-3 (off the boresight axis; one on it in half of the cases; detector plane z in {0.5,1,2}), samples 1-6, pointing styles '
             '{position angles k*pi/4 of both signs, Pythagorean doubled angles, generic psi in (-2pi,2pi), every sample '
             'in one pixel, polar boresight}, + seeded random cases, + FrequencyLandscape (2-d map: Ravel kept), + float32 '
-            'landscapes with x64 disabled, + float32 landscapes with x64 enabled; integer sky maps of distinct primes; every pixel '
+            'landscapes with x64 disabled, + float32 landscapes with x64 enabled, + coincidence layouts: every class of coinciding / size-1 '
+            'axes of the time-ordered data (2-d: ndet=nsamp, ndet=1, nsamp=1, both 1; 3-d: ndet=nsamp, ndet=ndir, ndir=nsamp, all equal, '
+            'ndet=1, nsamp=1 and their combinations) x every Stokes kind (thorough: two sizes per class), with pairwise distinct position '
+            'angles (doubled angles >= 0.1 rad from multiples of pi/2), distinct boresight pixels and distinct detector offsets, so that '
+            'exchanging the roles of two axes changes the result, + such layouts on FrequencyLandscape (nfreq coinciding too) and in '
+            'single precision; integer sky maps of distinct primes; every pixel '
             'table also compared with the independent float64 pointing model. Distinct by canonical JSON of the case. '
             'pointing (extra): see numerical_tests_not_proof.note.'
         )
@@ -833,6 +935,8 @@ class Check(PropertyCheck):
         d = {}
         for c in cases:
             key = f'{c["kind"]}/nside{c["nside"]}/{c["stokes"]}/ndir{c.get("ndir", 1)}' + ('' if c.get('dtype', 'float64') == 'float64' else '/' + c['dtype']) + ('' if c.get('x64', True) else '/x64-off') + ('/freq' if c.get('land') == 'frequency' else '')
+            if c.get('style') == 'coincidence':
+                key = f'coincidence/{c.get("layout")}/{c["stokes"]}' + ('' if c.get('dtype', 'float64') == 'float64' else '/' + c['dtype']) + ('' if c.get('x64', True) else '/x64-off') + ('/freq' if c.get('land') == 'frequency' else '')
             d[key] = d.get(key, 0) + 1
         return d
 
@@ -972,6 +1076,7 @@ class Check(PropertyCheck):
         ndet, ndir, nsamp = len(case['det_x']), len(case['det_x'][0]), len(case['pa'])
         self.stats['samples_total'] += ndet * ndir * nsamp
         self.stats['multi_direction_cases'] += ndir > 1
+        self.stats['coincidence_layout_cases'] = self.stats.get('coincidence_layout_cases', 0) + (case.get('style') == 'coincidence')
         what = f'nside={case["nside"]} stokes={case["stokes"]} ndet={ndet} ndir={ndir} nsamp={nsamp} {case.get("dtype", "float64")} landscape' + ('' if case.get('x64', True) else ', x64 off')
         if 'error' in obs:
             return f'{obs.get("where")} raised {obs["error"]} ({obs.get("msg", "")}) for {what}'
